@@ -20,9 +20,9 @@ class _TreeDist(object):
         """
 
         # prepare the trees [probably not necessary @lingulist]
-        for tree in [treeA, treeB]:
-            for old, new in [(";", ""), ("/", "-"), ("\n", "")]:
-                tree = tree.replace(old, new)
+        for old, new in [(";", ""), ("/", "-"), ("\n", "")]:
+            treeA = treeA.replace(old, new)
+            treeB = treeB.replace(old, new)
         treeA = treeA.replace(" ", "_")
 
         # get lingpy-trees from treeA and treeB
